@@ -5,6 +5,9 @@ PROPS = {
     'C02': dict(units=['U1', 'U2'], kani=[], level='proof',
                 scope='log codec: framing/parsing inverse, torn tail at any byte ignored, pending = suffix after last commit marker',
                 outside='ordering of append/sync/truncate calls against the disk, multi-crash histories, IndexWriter::new wiring, CRC collisions'),
+    'C04': dict(units=['U3'], kani=[], level='proof',
+                scope='the commit fold: new-segment contents == last add per id, untouched live copies kept, touched ids lose their old copy, exactly those old copies tombstoned; load_live_docs maps each id to its last live slot',
+                outside='segment writer storing documents in pending_new order (BTreeMap keys()/values() order agreement assumed), tombstone merge into the manifest (HashSet/sort code), stored projection, reader-side deletion filtering, several writer handles / generation reload, rollback, compaction'),
 }
 
 COMMON_TRUSTED = [
